@@ -186,9 +186,13 @@ def julian_rule(R, lib, ob):
             raise ValueError('forEpochDays does not give a LocalDate (%r)' % (r,))
         return (fl['mYearTiny'] + 2000, fl['mMonth'], fl['mDay'])
     for c, fn_, probe in (('LocalDate::toEpochDays', to_days, dates[0]), ('LocalDate::extractYearMonthDay', from_days, 0)):
+        # the folder is the fast path; it is only used when it agrees with the typed interpreter on a few probes (it does not
+        # follow every idiom, e.g. reference parameters filled under a condition)
         how = 'fold'
         try:
-            fn_(probe, 'fold')
+            probes = [probe] + ([dates[len(dates) // 2], dates[-1]] if fn_ is to_days else [-46385, 31, 46000])
+            if any(fn_(p_, 'fold') != fn_(p_, 'interpret') for p_ in probes):
+                how = 'interpret'
         except Exception:
             how = 'interpret'
         sample = dates if how == 'fold' or full else [d_ for i, d_ in enumerate(dates) if i % 4 == 0 or d_.year in (1873, 1900, 2000, 2100, 2127)]
